@@ -14,7 +14,8 @@ missed=[s for s,m in metas.items() if 'issed' in m['caught_by'].get(m['property'
 text=f'''
 ### 14.8 Self-validation with independently written breaking changes (seeded/)
 
-{n} changes (one aimed at each of the 19 properties, and a second one for C02-C05, C07-C09, C11-C13, C15, C16) were written by
+{n} changes (one aimed at each of the 19 properties, a second one for C02-C05, C07-C09, C11-C13, C15, C16 and a third one for
+C01, C02, C04, C07, C10, C18, C19) were written by
 fresh sub-agents that were given only the text of one property and a scratch worktree of /repo under /tmp (nothing from
 /verif); each was asked for a change that compiles, keeps the 268 pinned tests green and needs something specific to
 manifest, with a demonstration that fails with the change and passes without it. Every change was re-confirmed by
@@ -22,8 +23,9 @@ manifest, with a demonstration that fails with the change and passes without it.
 stored as `seeded/<id>/{{patch.diff, seed_demo.rs (or .sh), README.md, meta.json}}`; the worktrees and their build output
 were removed afterwards. To run the checks against a change `tools/run_seed.sh <id> <checks>` applies the patch to /repo
 (`git apply`), runs `./check`, and undoes it (`git checkout -- .`); nothing of this was ever committed to /repo. No
-request was refused by the permission system or a safety layer, by a sub-agent or by me. Seven second-round agents (C01, C06, C10, C14, C17, C18, C19) came back with the same change as an earlier one (for C06: the
-change already stored for C17): not stored twice.
+request was refused by the permission system or a safety layer, by a sub-agent or by me. Nine later agents (second round: C01, C06, C10, C14, C17, C18, C19; third round: C14, C17) came back with the same change as an
+earlier one (for C06: the change already stored for C17): not stored twice. The third round's prompt added one sentence asking
+for a less obvious place than the first function that comes to mind, which produced changes in lib.rs orchestration code.
 
 Result: **all {n} are reported by the check of the property they target**, {n-len(missed)} at the first run and {len(missed)} only after
 the check was strengthened (the miss and the remedy are in the table; every remedy is a wider generator, a new stream or
@@ -68,6 +70,12 @@ What the misses taught (and what was changed):
 * **C12** collapsed repeated `write` calls into the model's single call and put the fault on the first one only: a
   line-buffered standard output keeps the tail after the last newline byte back, so the last system call is a different
   failure point - faults now go on the first and the last system call of every collapsed call (all, thorough tier).
+* **C04** fed `optimize()` already-optimal files that were oxipng's own canonical output, whose re-serialisation is
+  byte-identical: half of them are now re-wrapped with two kept chunks in an order oxipng writes differently (still not
+  improvable), so "copy of the original" and "a re-serialisation of the same size" can be told apart.
+* **C07** (second miss) did not judge an output that was byte-identical to the input - exactly the case in which a
+  shortcut can skip the strip policy - and every generated file was improvable: unchanged outputs are judged too, and a
+  third of the cases get a second stage (the first stage's output under another strip policy).
 * **C13** ran its expiry sweep on files without metadata, and the strict decoder did not check the layout of
   bKGD / sBIT / hIST against colour type, depth and palette (C02: "every structural constraint of the specification that
   the input satisfies"): a third of the deadline cases now carry such chunks under a keeping policy and the decoder
